@@ -1073,3 +1073,172 @@ theorem projectSpec_sorted (emp : π → Bool) {k : Int} (hk : k ≠ 0) (m : Int
 
 end specfacts
 end Ft.C07
+
+namespace Ft.C07
+open Ft StrictTotal
+
+/-! ### descending ranges, rank extents, projections of lazy fibers -/
+
+theorem pyRangeDown_cons {s e : Int} {k : Nat} (h : e < s ∧ 0 < k) :
+    pyRangeDown s e k = s :: pyRangeDown (s - k) e k := by
+  rw [pyRangeDown]; simp [h]
+
+/-- `range(s, e, -k)`: the coordinates `s, s-k, s-2k, …` above `e` -/
+theorem mem_pyRangeDown (s e : Int) (k : Nat) (c : Int) :
+    c ∈ pyRangeDown s e k ↔ 0 < k ∧ e < c ∧ ∃ n : Nat, c = s - n * k := by
+  fun_induction pyRangeDown s e k with
+  | case1 s h ih =>
+    rw [List.mem_cons, ih]
+    constructor
+    · rintro (rfl | ⟨hk, hlt, n, rfl⟩)
+      · exact ⟨h.2, h.1, 0, by simp⟩
+      · refine ⟨hk, hlt, n + 1, ?_⟩
+        rw [Int.natCast_succ, Int.add_mul]; omega
+    · rintro ⟨hk, hlt, n, rfl⟩
+      cases n with
+      | zero => left; simp
+      | succ n =>
+        right
+        refine ⟨hk, hlt, n, ?_⟩
+        rw [Int.natCast_succ, Int.add_mul]; omega
+  | case2 s h =>
+    simp only [List.not_mem_nil, false_iff]
+    rintro ⟨hk, hlt, n, rfl⟩
+    apply h
+    refine ⟨?_, hk⟩
+    have : (0 : Int) ≤ (n : Int) * (k : Int) := Int.mul_nonneg (Int.natCast_nonneg n) (Int.natCast_nonneg k)
+    omega
+
+theorem pyRangeDown_descending (s e : Int) (k : Nat) : (pyRangeDown s e k).Pairwise (· > ·) := by
+  fun_induction pyRangeDown s e k with
+  | case1 s h ih =>
+    rw [List.pairwise_cons]
+    refine ⟨?_, ih⟩
+    intro c hc
+    obtain ⟨_, _, n, rfl⟩ := (mem_pyRangeDown _ _ _ c).1 hc
+    have : (0 : Int) ≤ (n : Int) * (k : Int) := Int.mul_nonneg (Int.natCast_nonneg n) (Int.natCast_nonneg _)
+    have hk : (0 : Int) < (k : Int) := by exact_mod_cast h.2
+    show s > s - ↑k - ↑n * ↑k
+    omega
+  | case2 s h => exact List.Pairwise.nil
+
+section lazychain
+variable {ρ : Type}
+
+/-- projecting a lazy fiber that presents the ascending list `src` with an increasing transform:
+    the non-empty elements under the transformed coordinates inside the interval -/
+theorem projectOfLazy_eq (emp : ρ → Bool) {k : Int} (hk : 0 < k) (m : Int) (iv : Option (Int × Int))
+    {src : Fib Int ρ} (hs : Sorted src) :
+    projectOfLazy emp k m iv none src =
+      .ok ((transF k m (src.filter (fun x => !emp x.2))).filter (fun x => inIv iv x.1)) := by
+  unfold projectOfLazy
+  have h2 : decide (k * 0 + m > k * 1 + m) = false := by
+    simp only [decide_eq_false_iff_not]; omega
+  simp only [h2, Option.isSome_none, Bool.or_self, Bool.false_eq_true, if_false]
+  rw [rangeLoop_none, ivLoop_eq iv (transF_sorted_pos hk m (sorted_filter hs _))]
+
+theorem pruneOfLazy_eq (emp : ρ → Bool) (pred : Nat → Int → ρ → Bool) (src : Fib Int ρ) :
+    pruneOfLazy emp pred none src =
+      .ok ((((src.filter (fun x => !emp x.2)).zipIdx).filter (fun x => pred x.2 x.1.1 x.1.2)).map (·.1)) := by
+  unfold pruneOfLazy
+  simp only [Option.isSome_none, Bool.false_eq_true, if_false]
+  rw [rangeLoop_none]
+
+end lazychain
+
+section extent
+variable {π : Type}
+
+/-- the fold of `rankExtent` from an accumulator -/
+def extFold (acc : Option Int) (sibs : List (Fib Int π)) : Option Int :=
+  sibs.foldl (fun acc g =>
+    let n := estShape g
+    if n = 0 then acc else match acc with
+      | none => some n
+      | some o => some (if o < n then n else o)) acc
+
+theorem extFold_spec : ∀ (sibs : List (Fib Int π)) (acc : Option Int),
+    (match extFold acc sibs with
+     | none => acc = none ∧ ∀ g ∈ sibs, estShape g = 0
+     | some n => (∀ o, acc = some o → o ≤ n) ∧ (∀ g ∈ sibs, estShape g = 0 ∨ estShape g ≤ n) ∧
+        (acc = some n ∨ ∃ g ∈ sibs, estShape g = n ∧ n ≠ 0))
+  | [], acc => by
+    unfold extFold
+    cases acc with
+    | none => simp
+    | some o => simp
+  | g :: r, acc => by
+    have step : extFold acc (g :: r) = extFold
+        (if estShape g = 0 then acc else match acc with
+          | none => some (estShape g)
+          | some o => some (if o < estShape g then estShape g else o)) r := by
+      unfold extFold; rw [List.foldl_cons]
+    rw [step]
+    by_cases h0 : estShape g = 0
+    · rw [if_pos h0]
+      have ih := extFold_spec r acc
+      cases hres : extFold acc r with
+      | none =>
+        rw [hres] at ih
+        refine ⟨ih.1, ?_⟩
+        intro x hx
+        rcases List.mem_cons.1 hx with rfl | hx
+        · exact h0
+        · exact ih.2 x hx
+      | some n =>
+        rw [hres] at ih
+        refine ⟨ih.1, ?_, ?_⟩
+        · intro x hx
+          rcases List.mem_cons.1 hx with rfl | hx
+          · exact Or.inl h0
+          · exact ih.2.1 x hx
+        · rcases ih.2.2 with h | ⟨x, hx, hx2⟩
+          · exact Or.inl h
+          · exact Or.inr ⟨x, List.mem_cons_of_mem _ hx, hx2⟩
+    · rw [if_neg h0]
+      cases acc with
+      | none =>
+        have ih := extFold_spec r (some (estShape g))
+        cases hres : extFold (some (estShape g)) r with
+        | none => rw [hres] at ih; simp at ih
+        | some n =>
+          rw [hres] at ih
+          simp only at ih ⊢
+          refine ⟨(by intro o h; cases h), ?_, ?_⟩
+          · intro x hx
+            rcases List.mem_cons.1 hx with rfl | hx
+            · exact Or.inr (ih.1 _ rfl)
+            · exact ih.2.1 x hx
+          · right
+            rcases ih.2.2 with h | ⟨x, hx, hx2⟩
+            · simp only [Option.some.injEq] at h
+              exact ⟨g, List.mem_cons_self .., h, by rw [← h]; exact h0⟩
+            · exact ⟨x, List.mem_cons_of_mem _ hx, hx2⟩
+      | some o =>
+        have ih := extFold_spec r (some (if o < estShape g then estShape g else o))
+        cases hres : extFold (some (if o < estShape g then estShape g else o)) r with
+        | none => rw [hres] at ih; simp at ih
+        | some n =>
+          rw [hres] at ih
+          simp only at ih ⊢
+          have hmax := ih.1 _ rfl
+          refine ⟨?_, ?_, ?_⟩
+          · intro o' ho'
+            simp only [Option.some.injEq] at ho'
+            subst ho'
+            split at hmax <;> omega
+          · intro x hx
+            rcases List.mem_cons.1 hx with rfl | hx
+            · right; split at hmax <;> omega
+            · exact ih.2.1 x hx
+          · rcases ih.2.2 with h | ⟨x, hx, hx2⟩
+            · simp only [Option.some.injEq] at h
+              by_cases hlt : o < estShape g
+              · rw [if_pos hlt] at h
+                exact Or.inr ⟨g, List.mem_cons_self .., h, by rw [← h]; exact h0⟩
+              · rw [if_neg hlt] at h
+                exact Or.inl (by rw [h])
+            · exact Or.inr ⟨x, List.mem_cons_of_mem _ hx, hx2⟩
+
+end extent
+end Ft.C07
